@@ -6,7 +6,8 @@
 pub fn inv_mod<const N: usize>(n: &BUint<N>, p: &BUint<N>) -> Result<BUint<N>, BUint<N>> {
     assert!(!p.is_zero());
     if n.is_zero() {
-        return Err(*p);
+        // gcd(0, p) = p: zero is invertible only modulo 1.
+        return if p.is_one() { Ok(BUint::ZERO) } else { Err(*p) };
     }
     let (d, u, _) = gcd_internal::<N, true>(n, p);
     if d != BUint::ONE {
@@ -25,7 +26,7 @@ pub fn inv_mod<const N: usize>(n: &BUint<N>, p: &BUint<N>) -> Result<BUint<N>, B
 pub fn inv_mod<const N: usize>(n: &BUint<N>, p: &BUint<N>) -> (r: Result<BUint<N>, BUint<N>>)
     requires 1 <= N <= 0x100_0000, uv(*p) > 0,
     ensures
-        r matches Err(d) ==> uv(d) == gcd_spec(uv(*n), uv(*p)) && (uv(*n) != 0 ==> uv(d) > 1),
+        r matches Err(d) ==> uv(d) == gcd_spec(uv(*n), uv(*p)) && uv(d) > 1,
         r matches Ok(x) ==> gcd_spec(uv(*n), uv(*p)) == 1 && (gcd_band(uv(*n), uv(*p), N as nat) ==>
             uv(x) <= uv(*p) && (uv(*p) > 1 ==> uv(x) < uv(*p)) && (uv(*n) * uv(x)) % uv(*p) == 1nat % uv(*p)),
 {
@@ -35,7 +36,8 @@ pub fn inv_mod<const N: usize>(n: &BUint<N>, p: &BUint<N>) -> (r: Result<BUint<N
             vstd::arithmetic::div_mod::lemma_small_mod(0, uv(*p));
             assert(gcd_spec(0, uv(*p)) == gcd_spec(uv(*p), 0nat % uv(*p)));
         }
-        return Err(*p);
+        // gcd(0, p) = p: zero is invertible only modulo 1.
+        return if p.is_one() { Ok(ol_buint_zero()) } else { Err(*p) };
     }
     let (d, u, _) = gcd_internal::<N, true>(n, p);
     proof { lemma_buint_ops_all::<N>(); lemma_gcd_spec(uv(*n), uv(*p)); }
